@@ -26,8 +26,8 @@ class CFGVariableConverter:
 
     def _get_state_index(self, state):
         """Get the state index"""
-        if state.index_cfg_converter is None:
-            self._set_index_state(state)
+        # The index stored on the object may come from another converter
+        self._set_index_state(state)
         return state.index_cfg_converter
 
     def _set_index_state(self, state):
@@ -39,8 +39,8 @@ class CFGVariableConverter:
 
     def _get_symbol_index(self, symbol):
         """Get the symbol index"""
-        if symbol.index_cfg_converter is None:
-            self._set_index_symbol(symbol)
+        # The index stored on the object may come from another converter
+        self._set_index_symbol(symbol)
         return symbol.index_cfg_converter
 
     def _set_index_symbol(self, symbol):
